@@ -43,7 +43,9 @@ func init() {
 				momentum.DefaultIchimokuCloudBasePeriod, momentum.DefaultIchimokuCloudBasePeriod,
 				momentum.DefaultIchimokuCloudLeadingPeriod, momentum.DefaultIchimokuCloudLeadingPeriod,
 				momentum.DefaultIchimokuCloudLaggingPeriod),
-			Valid: func(c []int) bool { return c[0] <= c[2] && c[2] <= c[4] && c[1] <= c[3] && c[3] <= c[5] },
+			Valid: func(c []int) bool {
+				return c[0] == c[1] && c[2] == c[3] && c[4] == c[5] && c[0] <= c[2] && c[2] <= c[4]
+			},
 			// Documented formulas of the five outputs, in the order Compute returns them
 			// ("Returns conversionLine, baseLine, leadingSpanA, leadingSpanB, laggingSpan"):
 			//   o0 conversionLine: Tenkan-sen (Conversion Line) = (9-Period High + 9-Period Low) / 2
@@ -52,8 +54,9 @@ func init() {
 			//   o3 leadingSpanB:   Senkou Span B (Leading Span B) = (52-Period High + 52-Period Low) / 2
 			//   o4 laggingSpan:    Chikou Span (Lagging Span) = Closing plotted 26 days in the past.
 			// (9 / 26 / 52 / 26 are the conversion / base / leading / lagging periods.)
-			// Lags are left at zero here; to be filled in by hand.
-			Lag: func(c []int) []int { return []int{0, 0, 0, 0, 0} },
+			// The lagging span is documented as the closing "plotted LaggingPeriod days in the past": its k-th
+			// value refers to input position k + w - LaggingPeriod.
+			Lag: func(c []int) []int { return []int{0, 0, 0, 0, -c[6]} },
 			Make: func(cfg []int) Inst {
 				x := momentum.NewIchimokuCloud[float64]()
 				x.ConversionMax.Period, x.ConversionMin.Period = cfg[0], cfg[1]
@@ -108,6 +111,8 @@ func init() {
 		Pipe{Name: "momentum.StochasticOscillator", Class: "indicator", Inputs: ins("high", "low", "close"), Params: ps("max", "min", "sma"),
 			Default: cfgOf(momentum.DefaultStochasticOscillatorMaxAndMinPeriod, momentum.DefaultStochasticOscillatorMaxAndMinPeriod,
 				momentum.DefaultStochasticOscillatorPeriod),
+			// the documented formula has ONE look-back period for the highest high and the lowest low
+			Valid: func(c []int) bool { return c[0] == c[1] },
 			Make: func(cfg []int) Inst {
 				x := momentum.NewStochasticOscillator[float64]()
 				x.Max.Period, x.Min.Period, x.Sma.Period = cfg[0], cfg[1], cfg[2]
@@ -126,6 +131,7 @@ func init() {
 		// WilliamsR: Max and Min are separate exported knobs; the documented default is one period.
 		Pipe{Name: "momentum.WilliamsR", Class: "indicator", Inputs: ins("high", "low", "close"), Params: ps("max", "min"),
 			Default: cfgOf(momentum.DefaultWilliamsRPeriod, momentum.DefaultWilliamsRPeriod),
+			Valid:   func(c []int) bool { return c[0] == c[1] },
 			Make: func(cfg []int) Inst {
 				x := momentum.NewWilliamsR[float64]()
 				x.Max.Period, x.Min.Period = cfg[0], cfg[1]
